@@ -6,8 +6,10 @@ CFG = {
         # work package wrows: PositionLayerWriter + write_all over a scripted sink vs Sink.v
         J("scaled", "c13-sinkrows", imports="Base Stream Inst Run RunWRows"),
         J("scaled", "c13-encsink", imports="Base Stream Inst Run RunWRows", shard=10),
+        J("scaled", "c13-hdr", imports="Base Stream Inst Run RunHdr"),
+        J("prod", "c13-hdr", imports="Base Stream Inst Run RunHdr"),
     ],
-    "run_modules": ["RunC13", "RunFsComp", "RunWRows", "RunWRowsProofs"],
+    "run_modules": ["RunC13", "RunFsComp", "RunWRows", "RunWRowsProofs", "RunHdr"],
     "rule": "scaled constants: 48 (quick) / 300 (thorough) generated archives (as C01: 1-4 files, boundary-sized interleaved pieces, the 4 layer "
             "combinations in turn, levels {0,1,5,9,11}), each (a) written through a sink accepting at most sched[i] bytes at the i-th write "
             "(schedules: constant 1, 2, 3, one of {5,7,13,31,97}, 100000, or 2-11 random quotas in 1..39; last entry repeats) and reporting "
@@ -73,3 +75,12 @@ CFG["explanation"] += (" || c13-encsink: after EVERY call of the real encryption
                        "(theorems C13_enc_writer_over_sink / C13_enc_finalize_over_sink: in that composition every call succeeds with the model's accepted count and the "
                        "destination holds exactly ew_out — the instantiation of C13_push_outs for the encryption layer, which was not a separate theorem before); oracle: "
                        "the destination holds the bytes the same calls leave in memory and every write accepts the same count")
+# work package hdrsrc: the header stage through short-read sources
+CFG["rule"] += ("; c13-hdr (both flavours): ArchiveHeader::from through sources returning at most 1, 2, 3, 7 bytes per read, a random schedule "
+                "and memory, on valid headers (4 layer combinations, 1-3 recipients), every truncation of a header and hostile headers "
+                "(magic, version, Option tag, layers, key count in {0, n-1, n+1, 2^20, limit/48, 2^31, 2^63+5, 2^64-1}): outcome, error class and "
+                "bytes consumed from the source are model-compared (RunHdr.hdr_read = HeaderStream.read_header_s over Stream.Throttled)")
+CFG["explanation"] += (" || header stage (props/C13.v C13_header_any_source, C13_archive_open_any_source): ArchiveHeader::from modelled as the code's "
+                "read_exact sequence (3, 4, then bincode's single-byte and 8-byte reads, limit charged before each) over ANY stream refining a cursor "
+                "returns what Archive.read_header returns on the bytes and leaves the source at the end of the header; composed with the layer "
+                "theorems (any refining inner stream) and C01: archive_open over any such source of an archive_write output reads back what was written")
